@@ -122,6 +122,20 @@ pub fn explore(opts: &Opts) -> Explored {
             }
         }
     }
+    // broadcast operands with more elements than any block or lane width
+    for (a, b) in [(vec![2usize, 65], vec![65usize]), (vec![3, 100], vec![100]), (vec![2, 2, 70], vec![2, 70]), (vec![3, 129], vec![1, 129]), (vec![2, 33, 3], vec![33, 1])] {
+        for op in [OpK::Add, OpK::Mul] {
+            for uses in 1..=2usize {
+                let leaves = vec![lf(&a, 0, var), lf(&b, 1, var), lf(&b, 2, var)];
+                let mut nodes = vec![PNode { op: op.clone(), args: vec![0, 1] }];
+                if uses == 2 {
+                    nodes.push(PNode { op: OpK::Mul, args: vec![1, 0] });
+                    nodes.push(PNode { op: OpK::Add, args: vec![3, 4] });
+                }
+                items.push(Item { sub: format!("broadcast-long/{}", op.name()), prog: Program { leaves, nodes, retrack: Vec::new(), frozen: Vec::new(), dropped: Vec::new() }, mask: vec![true, true, false] });
+            }
+        }
+    }
     // matmul additive term broadcast over rows and batches, used once and twice
     let leads: Vec<Vec<usize>> = vec![vec![], vec![2], vec![1, 2], vec![2, 2]];
     for c in matmul_configs(2, &leads, true) {
